@@ -65,6 +65,11 @@ def wire_classifier(an, n, argvals, env):
             if v is not None and v[0] == "patfield":
                 variant = v[2]
         return Ex(ev(("REGION", full, variant, fld(n["args"][2], argvals[2]), fld(n["args"][3], argvals[3])))), None
+    if c in ("savefile::Serializer::write_raw_ptr", "savefile::Deserializer::read_raw_ptr", "savefile::Deserializer::read_raw_ptr_mut"):
+        t = subst_ty(n["targs"][1], tsub) if len(n.get("targs", [])) > 1 else "?"
+        return Ex(ev(("PTR", t))), None
+    if c in ("savefile::Serializer::write_raw_ptr_size", "savefile::Deserializer::read_raw_ptr_size"):
+        return Ex(ev(("PTRLEN",))), None
     tr = n.get("trait")
     name = c.rsplit("::", 1)[-1]
     if tr == "byteorder::io::WriteBytesExt" and name.startswith("write_"):
@@ -237,7 +242,8 @@ class WireAnalysis:
         an = Analyzer(self.facts, self.classifier, self.inline)
         env = {"$ver": ver, "$guards": guards, "$tsub": tsub or {}}
         e = an.function(f, env, argvals)
-        return canon(finalize(an.accept(e))), canon(finalize(an.reject(e))), canon(finalize(e.div)), an
+        acc = expand_regions(canon(finalize(an.accept(e))), self.facts)
+        return acc, canon(finalize(an.reject(e))), canon(finalize(e.div)), an
 
     def index(self):
         if not hasattr(self, "_index"):
